@@ -86,3 +86,25 @@ def step(fn):
 
 def twice(x):
     return [x, x]
+
+
+def pstep(fn):
+    from labrea import pipeline_step
+
+    return pipeline_step(fn)
+
+
+def flatten(x):
+    """A USER function named like labrea.functions.flatten (it does something else)."""
+    rt.call("libfn", "user_flatten", x=x)
+    return ("user-flatten", freeze(x))
+
+
+def length(x):
+    rt.call("libfn", "user_length", x=x)
+    return ("user-length", freeze(x))
+
+
+def negate(x):
+    rt.call("libfn", "user_negate", x=x)
+    return ("user-negate", freeze(x))
